@@ -166,7 +166,19 @@ pub fn lib(ctx: &Ctx) -> Stats {
     let n = ctx.n(300, 10_000);
     par_cases(ctx, n, |idx, st| {
         let mut rng = Rng::keyed(ctx.seed, "c08.lib", idx);
-        let (recs, alt, cfg) = gen_case(&mut rng, false);
+        let (mut recs, alt, mut cfg) = gen_case(&mut rng, false);
+        if idx % 40 == 7 && alt.is_none() {
+            // a k-mer whose multiplicity exceeds 2^16 (and 2^17) together with bins that reach beyond it: a homopolymer /
+            // dinucleotide record of 70-300 thousand bases, bin size 1 000-10 000, enough bins to tell 65 535 from the truth
+            let len = rng.usize(70_000, 300_000);
+            let unit = *rng.pick(&[SeqClass::HomoPolymer, SeqClass::Period2]);
+            recs[0].seq = gen_seq(&mut rng, unit, len, true);
+            cfg.bin_size = *rng.pick(&[1000usize, 5000, 10_000]);
+            cfg.bin_count = len / cfg.bin_size + rng.usize(2, 6);
+            cfg.k = cfg.k.max(2);
+            cfg.mem_gb = 6.0;
+            st.class("multiplicity > 65535 within the binned range");
+        }
         let sc = Scratch::new(ctx, "c08");
         // the vector input and the counting input may be of different format families (.fa vs .fq)
         let main_fq = recs.iter().all(|r| !r.seq.is_empty()) && rng.chance(1, 3);
